@@ -176,6 +176,9 @@ def disturb(name, A_world, tier):
         try:
             with lib.Capture():
                 c = copy.deepcopy(A_world.e)
+                for k in list(c.attributes):
+                    if ':' not in k and k != 'name':
+                        setattr(c, k.replace('-', '_'), None)       # deleting on the copy must not reach the original
                 for ch in list(c.get_children(ordered=False))[:1]:
                     c.remove(ch)
                 m = lib.content_model(name)
